@@ -44,12 +44,13 @@ func runC03(c *Ctx) {
 		if fn == nil {
 			continue
 		}
+		seqLoad := snapshotSeqNumLoads(fn) // in fn itself, or (by callee summary: on every path of) a closure it calls
 		fl := NewFlow(c.P).After("held:DB.mu", lock).KillAfter("held:DB.mu", unlock).
-			After("seqnum-read-in-this-region", Reaching(MethodOn("Load", "visibleSeqNum"), 2)).
-			KillAfter("seqnum-read-in-this-region", unlock)
+			After("seqnum-read-in-this-region", seqLoad).
+			KillAfter("seqnum-read-in-this-region", Or(unlock, CallTo("sync.(*Cond).Wait"))) // Wait releases DB.mu while it blocks
 		res := fl.Analyze(fn, emptyState())
 		c.noteFlow(fl)
-		n := c.Require("C03.R1", res, Reaching(MethodOn("Load", "visibleSeqNum"), 2), "snapshot seqnum read under DB.mu", []string{"held:DB.mu"})
+		n := c.Require("C03.R1", res, seqLoad, "snapshot seqnum read under DB.mu", []string{"held:DB.mu"})
 		n2 := c.Require("C03.R1", res, Or(CallTo("p.(*snapshotList).pushBack"), CallTo("man.(*Version).Ref")), "snapshot registered in the same DB.mu region in which its seqnum was read", []string{"held:DB.mu", "seqnum-read-in-this-region"})
 		if n == 0 || n2 == 0 {
 			c.Unresolved("C03.R1", "visibleSeqNum.Load / pushBack not found in "+name)
@@ -204,4 +205,87 @@ func snapshotsParam(fn *ssa.Function) string {
 		}
 	}
 	return "‹no Snapshots parameter›"
+}
+
+// snapshotSeqNumLoads: the visibleSeqNum.Load() calls whose result becomes the snapshot's sequence
+// number in fn — the value stored into a field named seqNum of a struct literal built in fn,
+// followed through local variables (also captured ones assigned inside fn's closures). Other loads
+// of the visible sequence number (e.g. the wait condition of the excise loop) do not count.
+func snapshotSeqNumLoads(fn *ssa.Function) M {
+	isLoad := MethodOn("Load", "visibleSeqNum")
+	set := map[ssa.Instruction]bool{}
+	var follow func(v ssa.Value, d int)
+	seen := map[ssa.Value]bool{}
+	follow = func(v ssa.Value, d int) {
+		v = stripConv(v)
+		if v == nil || seen[v] || d > 8 {
+			return
+		}
+		seen[v] = true
+		switch x := v.(type) {
+		case *ssa.Call:
+			if isLoad.F(x) {
+				set[x] = true
+			}
+		case *ssa.Phi:
+			for _, e := range x.Edges {
+				follow(e, d+1)
+			}
+		case *ssa.UnOp:
+			if x.Op != token.MUL {
+				return
+			}
+			cell := x.X
+			if fv, ok := cell.(*ssa.FreeVar); ok {
+				if b := freeVarBinding(fv); b != nil {
+					cell = b
+				}
+			}
+			al, ok := cell.(*ssa.Alloc)
+			if !ok {
+				return
+			}
+			// every store into the cell, in fn and in its closures
+			var fns []*ssa.Function
+			var collect func(f *ssa.Function)
+			collect = func(f *ssa.Function) {
+				fns = append(fns, f)
+				for _, a := range f.AnonFuncs {
+					collect(a)
+				}
+			}
+			collect(al.Parent())
+			for _, f := range fns {
+				for _, b := range f.Blocks {
+					for _, in := range b.Instrs {
+						st, ok := in.(*ssa.Store)
+						if !ok {
+							continue
+						}
+						addr := st.Addr
+						if fv, ok := addr.(*ssa.FreeVar); ok {
+							if bnd := freeVarBinding(fv); bnd != nil {
+								addr = bnd
+							}
+						}
+						if addr == ssa.Value(al) {
+							follow(st.Val, d+1)
+						}
+					}
+				}
+			}
+		}
+	}
+	for _, b := range fn.Blocks {
+		for _, in := range b.Instrs {
+			st, ok := in.(*ssa.Store)
+			if !ok {
+				continue
+			}
+			if f := fieldOfValue(st.Addr); f != nil && f.Name() == "seqNum" {
+				follow(st.Val, 0)
+			}
+		}
+	}
+	return Pred("the visibleSeqNum.Load() that becomes the snapshot's seqnum", func(in ssa.Instruction) bool { return set[in] })
 }
